@@ -62,6 +62,16 @@ def tus(tier, seed, table=None):
                 body += '  pair_arith<%s, %s, %s>(rng);\n' % (TAGS['sat'], CT[a], CT[b])
             body += '}\n'
             res.append(dict(name='%s_all_p%d_%d' % (table, path, i // 10), src=body, compiler='g++', defines=['CNL_VERIF_OVERFLOW_PATH=%d' % path]))
+    # wrapper shifted by wrapper (count types of every width, counts far beyond the widths)
+    wp = [('i32', 'u32'), ('i32', 'i64'), ('u32', 'u64'), ('i64', 'u32'), ('i8', 'u16'), ('u64', 'i64'), ('i16', 'i32'), ('u8', 'u8')]
+    for i in range(0, len(wp), 4):
+        tg = ['sat', 'thr', 'trp'][(seed + i // 4) % 3]
+        body = '#define VH_TABLE "%s"\n#include "%s"\nint main(){ install(); Rng rng(seed_from_env()+%d);\n' % (
+            table, __file__.replace('C07.py', 'C06.py').replace('.py', '.h'), 900 + i)
+        for (a, b) in wp[i:i + 4]:
+            body += '  wshift<%s, %s, %s>(rng);\n' % (TAGS[tg], CT[a], CT[b])
+        body += '}\n'
+        res.append(dict(name='%s_wshift_%d' % (table, i // 4), src=body, compiler='clang++' if i else 'g++', defines=['CNL_VERIF_OVERFLOW_PATH=%d' % (1 if i else 2)]))
     # floating-point sources
     FT = {'f32': 'float', 'f64': 'double', 'f80': 'long double'}
     # every floating format x every destination type (the limit of a destination with more digits than the
